@@ -183,8 +183,74 @@ pub fn run(ctx: &mut Ctx) {
     for (n, ok) in r2::selftest() {
         ctx.selftest(&n, ok);
     }
-    ctx.require(&["valid_accepted", "bitflip_r", "bitflip_s", "r=0", "s=0", "r=n", "s=n", "s=n+1", "r=2^256-1", "s=2^256-1", "s=n-r", "sG+tP=infinity", "swapped_r_s", "s+n", "s_plus_n_alias", "msg_extended", "msg_bitflip", "id_changed", "key_changed", "len<64", "len>64", "random_pair", "openssl_made"]);
+    ctx.require(&["valid_accepted", "bitflip_r", "bitflip_s", "r=0", "s=0", "r=n", "s=n", "s=n+1", "r=2^256-1", "s=2^256-1", "s=n-r", "sG+tP=infinity", "swapped_r_s", "s+n", "s_plus_n_alias", "msg_extended", "msg_bitflip", "id_changed", "key_changed", "len<64", "len>64", "random_pair", "openssl_made", "digest:t=0_equation_satisfied", "digest:valid", "digest:bitflip"]);
     let c = r2::curve();
+    // --- digest level (hook `verif_verify_digest`): clauses no message can be made to reach. (a) t = r + s = 0 mod n with
+    // e chosen so that the remaining equation holds (a verifier without the t check accepts); (b) valid and tampered
+    // signatures for arbitrary 256-bit e, including e >= n, 0 and 2^256-1, judged by the reference verifier.
+    {
+        let n = ctx.n(80, 4000);
+        let mut pd = ctx.prng("digest");
+        for i in 0..n {
+            let sub = pd.next();
+            if !ctx.mine(i) {
+                continue;
+            }
+            let mut p = Prng::new(sub, "dg");
+            let d = key_for(&mut p, (i / 4) % 40);
+            let pk = r2::mul(&d, &r2::g()).unwrap();
+            let how = i % 3;
+            let Some((lpk, _)) = lib_keys(&d, how, &mut p) else { continue };
+            let (cls, e, sig): (&str, BigUint, Vec<u8>) = match i % 4 {
+                0 => {
+                    let r = rand_scalar(&mut p, &c.n);
+                    let s_ = &c.n - &r;
+                    let x1 = r2::mul(&s_, &r2::g()).unwrap().0;
+                    let e = (&r + &c.n - (&x1 % &c.n)) % &c.n;
+                    let mut sig = r2::b32(&r).to_vec();
+                    sig.extend_from_slice(&r2::b32(&s_));
+                    ("digest:t=0_equation_satisfied", e, sig)
+                }
+                _ => {
+                    let e = match i % 16 {
+                        1 => BigUint::zero(),
+                        5 => (BigUint::one() << 256) - 1u32,
+                        9 => c.n.clone(),
+                        13 => &c.n - 1u32,
+                        _ => BigUint::from_bytes_be(&p.bytes(32)),
+                    };
+                    let k = rand_scalar(&mut p, &c.n);
+                    let Some((r, s_)) = r2::sign_e(&d, &e, &k) else { continue };
+                    let mut sig = r.to_vec();
+                    sig.extend_from_slice(&s_);
+                    if i % 4 == 3 {
+                        let bit = p.below(512) as usize;
+                        sig[bit / 8] ^= 0x80 >> (bit % 8);
+                        ("digest:bitflip", e, sig)
+                    } else {
+                        ("digest:valid", e, sig)
+                    }
+                }
+            };
+            let eb = r2::b32(&e);
+            let want = r2::verify_e(&pk, &e, &sig);
+            if (cls == "digest:valid") != want && cls != "digest:bitflip" {
+                ctx.violation("harness:digest-level-case-not-as-constructed", json!({"class": cls}));
+                continue;
+            }
+            ctx.eval();
+            ctx.class(cls);
+            ctx.distinct("digest", &[&r2::b32(&d), &eb, &sig]);
+            let w = json!({"d": hex::encode(r2::b32(&d)), "e": hex::encode(eb), "sig": hx(&sig), "class": cls, "key": provenance(how)});
+            match guard(|| lpk.verif_verify_digest(&eb, &sig)) {
+                Outcome::Ret(Ok(())) if want => {}
+                Outcome::Ret(Err(_)) if !want => {}
+                Outcome::Ret(Ok(())) => ctx.violation(&format!("verify(digest):{}:accepted", cls), w),
+                Outcome::Ret(Err(_)) => ctx.violation(&format!("verify(digest):{}:valid-signature-rejected", cls), w),
+                o => ctx.violation(&format!("verify(digest):{}:{}", cls, o.class()), w),
+            }
+        }
+    }
     let mut samples: Vec<Sample> = vec![];
     let mut prng = ctx.prng("samples");
     // reference-made signatures
